@@ -187,20 +187,22 @@ class _Obj:
 
 @obligation(
     pid="C15", name="sys_path_restored", timeout=tiered(250, 900),
-    shards=lambda: [(f"parts={k},paths={p},code%{m}={r}", (lambda m, r: lambda **kw: kw["code"] % m == r)(m, r), [dict(nparts=k, with_paths=p)])
-                    for k in (1, 2, 3) for p in (False, True) for m in ((1, 2, 6)[k - 1],) for r in range(m)],
-    pre=lambda nparts, with_paths, code: 0 <= code < 5 ** nparts * (nparts + 1),
+    shards=lambda: [(f"parts={k},paths={p},touch={t},code%{m}={r}", (lambda m, r: lambda **kw: kw["code"] % m == r)(m, r), [dict(nparts=k, with_paths=p, touch=t)])
+                    for k in (1, 2, 3) for p in (False, True) for t in range(3 if p else 1) for m in ((1, 2, 6)[k - 1],) for r in range(m)],
+    pre=lambda nparts, with_paths, code, touch: 0 <= code < 5 ** nparts * (nparts + 1) and 0 <= touch <= (2 if with_paths else 0),  # without import paths griffe installs no list of its own: what imported code does to sys.path is then its own business
     drives=[IMP.dynamic_import, IMP.sys_path],
-    bounds={"import path": "1..3 dotted parts", "import_module outcome at attempt i": OUTCOMES, "getattr": "fails (with each exception kind) at position 0..2 or never", "import_paths": "given or not"},
-    value_symbolic=["the fault schedule: outcome of each import attempt and position of the failing attribute access, encoded in one integer"], selectors=["number of parts, import_paths given (driver-bound)"],
+    bounds={"import path": "1..3 dotted parts", "import_module outcome at attempt i": OUTCOMES, "getattr": "fails (with each exception kind) at position 0..2 or never", "import_paths": "given or not",
+            "imported code": "leaves sys.path alone / mutates it in place / rebinds sys.path to a new list (the vendoring idiom) during the first import attempt"},
+    value_symbolic=["the fault schedule: outcome of each import attempt and position of the failing attribute access, encoded in one integer"], selectors=["number of parts, import_paths given, what the imported code does to sys.path (driver-bound)"],
     stubs=STUBS + ["importer.import_module follows the fault schedule; every choice is realised before entry (dynamic_import catches BaseException, which would swallow the engine's control exceptions)"],
-    must_cover=["imported", "import-error"],
-    grid=lambda seed: [dict(nparts=k, with_paths=p, code=c) for k in (1, 3) for p in (False, True) for c in range(0, 5 ** k * (k + 1), 7)],
+    must_cover=["imported", "import-error", "imported-code-rebinds-sys.path"],
+    grid=lambda seed: [dict(nparts=k, with_paths=p, code=c, touch=(c % 3 if p else 0)) for k in (1, 3) for p in (False, True) for c in range(0, 5 ** k * (k + 1), 7)],
 )
-def sys_path_restored(nparts: int, with_paths: bool, code: int) -> bool:
+def sys_path_restored(nparts: int, with_paths: bool, code: int, touch: int) -> bool:
     """Whatever import_module/getattr do (return, raise, exit, interrupt), sys.path is the identical list with identical contents afterwards; failures surface as ImportError."""
     # one solver variable encodes the whole fault schedule: outcome of each of the nparts import attempts (base 5) and the failing getattr position
     code = realize_value(code)
+    touch = realize_value(touch)
     o1, o2, o3 = code % 5, (code // 5) % 5 if nparts > 1 else 1, (code // 25) % 5 if nparts > 2 else 1
     attr_fail = code // (5 ** nparts)
     from harness.C08_json import _native
@@ -222,6 +224,10 @@ def sys_path_restored(nparts: int, with_paths: bool, code: int) -> bool:
         def fake_import(path):
             i = len(attempts)
             attempts.append(path)
+            if i == 0 and touch == 1:
+                sys.path.insert(0, "/added-by-imported-code")  # the analysed code mutates the (temporary) list in place
+            elif i == 0 and touch == 2:
+                sys.path = ["/vendored-by-imported-code", *sys.path]  # the analysed code REBINDS sys.path
             out = schedule[i] if i < len(schedule) else "ImportError"
             if out == "ok":
                 return Leaf()
@@ -253,4 +259,6 @@ def sys_path_restored(nparts: int, with_paths: bool, code: int) -> bool:
     if err:
         return fail(err)
     cover(status)
+    if touch == 2:
+        cover("imported-code-rebinds-sys.path")
     return True
